@@ -18,8 +18,8 @@
 (* The code's `%` is applied to values in 0 .. 2*Cap-1 only (start < Cap,  *)
 (* offset < Cap), where it equals Wrap; MC_RingBuffer cross-checks the     *)
 (* same slot formulas with the real modulo for Cap <= 4.  `set_first`      *)
-(* (a deliberate rotation of the logical order) is not part of this        *)
-(* abstraction.  Checked by:                                               *)
+(* (a rotation of the logical order) is followed through W's logical index *)
+(* `fidx`.  Checked by:                                               *)
 (*   apalache-mc check --cinit=ConstInit --inv=IndInv --init=Init --length=0    *)
 (*   apalache-mc check --cinit=ConstInit --inv=IndInv --init=IndInit --length=1 *)
 (*   apalache-mc check --cinit=ConstInit --inv=IndInv --init=InitRaw --length=0 *)
@@ -50,6 +50,8 @@ VARIABLES
   fpushed,
   \* @type: Int;
   fwslot,
+  \* @type: Int;
+  fidx,
   \* @type: Bool;
   fbad
 
@@ -62,6 +64,7 @@ Inc(x)  == IF x + 1 >= Cap THEN 0 ELSE x + 1          \* the code's own wrap of 
 \* elements 1..Cap, oldest first.
 Init == /\ start = 0 /\ len = 0 /\ pushed = 0 /\ popped = 0 /\ wslot = -1 /\ bad = FALSE
         /\ first = 0 /\ fpushed = Cap /\ fwslot = (IF W <= Cap THEN W - 1 ELSE -1) /\ fbad = FALSE
+        /\ fidx = (IF W <= Cap THEN W - 1 ELSE -1)
 
 \* from_raw_parts(start, len, storage) / Fixed::from_raw_parts(first, storage): ANY valid raw parts; the live
 \* elements are numbered 1..len (1..Cap for Fixed), oldest first.  Generalises Init (from) and from_full.
@@ -70,10 +73,11 @@ InitRaw == /\ start \in Int /\ start >= 0 /\ start < Cap /\ len \in Int /\ len >
            /\ wslot = (IF W <= len THEN Wrap(start + W - 1) ELSE -1)
            /\ first \in Int /\ first >= 0 /\ first < Cap /\ fpushed = Cap /\ fbad = FALSE
            /\ fwslot = (IF W <= Cap THEN Wrap(first + W - 1) ELSE -1)
+           /\ fidx = (IF W <= Cap THEN W - 1 ELSE -1)
 
 BLive(po, pu) == po < W /\ W <= pu
 BUnch == UNCHANGED <<start, len, pushed, popped, wslot, bad>>
-FUnch == UNCHANGED <<first, fpushed, fwslot, fbad>>
+FUnch == UNCHANGED <<first, fpushed, fwslot, fbad, fidx>>
 
 BPushFull == /\ len = Cap
              /\ start' = Inc(start) /\ len' = len /\ pushed' = pushed + 1 /\ popped' = popped + 1
@@ -89,11 +93,21 @@ BPop == /\ len > 0
         /\ start' = Inc(start) /\ len' = len - 1 /\ popped' = popped + 1
         /\ UNCHANGED <<pushed, wslot, bad>>
         /\ FUnch
+\* Fixed: `fidx` is W's LOGICAL index in the delay line (0 = oldest .. Cap-1 = newest, -1 = not in it), so
+\* that set_first - a rotation of the logical order, DRotate in RingBuffer.tla - can be followed too.
 FPush == /\ first' = Inc(first) /\ fpushed' = fpushed + 1
          /\ fwslot' = IF fpushed + 1 = W THEN first ELSE fwslot
-         /\ fbad' = (fbad \/ (first = fwslot /\ fpushed + 1 - Cap < W /\ W <= fpushed))
+         /\ fidx' = IF fpushed + 1 = W THEN Cap - 1 ELSE IF fidx >= 1 THEN fidx - 1 ELSE -1   \* index 0 is returned + evicted
+         /\ fbad' = (fbad \/ (first = fwslot /\ fidx >= 1))      \* wrote over W although W stays in the line
          /\ BUnch
-Next == BPushFull \/ BPushRoom \/ BPop \/ FPush
+\* set_first(index): first = index % len, i.e. ANY k in 0..Cap-1; the logical order rotates by (k - first) mod Cap
+FSetFirst == \E k \in Int :
+               /\ k >= 0 /\ k < Cap
+               /\ first' = k
+               /\ fidx' = IF fidx >= 0 THEN Wrap(fidx - Wrap(k + Cap - first) + Cap) ELSE -1
+               /\ UNCHANGED <<fpushed, fwslot, fbad>>
+               /\ BUnch
+Next == BPushFull \/ BPushRoom \/ BPop \/ FPush \/ FSetFirst
 
 IndInv ==
   /\ start >= 0 /\ start < Cap /\ len >= 0 /\ len <= Cap         \* representation invariant
@@ -103,10 +117,11 @@ IndInv ==
   /\ (W > pushed => wslot = -1)
   /\ first >= 0 /\ first < Cap /\ fpushed >= Cap
   /\ ~fbad
-  /\ ((fpushed - Cap < W /\ W <= fpushed) => fwslot = Wrap(first + (W - (fpushed - Cap) - 1)))
-  /\ (W > fpushed => fwslot = -1)
+  /\ fidx >= -1 /\ fidx < Cap
+  /\ (fidx >= 0 => fwslot = Wrap(first + fidx))      \* get(i)/Index/iter/push's return read slot Wrap(first + i)
+  /\ (W > fpushed => (fwslot = -1 /\ fidx = -1))
 
 IndInit == /\ start \in Int /\ len \in Int /\ pushed \in Int /\ popped \in Int /\ wslot \in Int /\ bad \in BOOLEAN
-           /\ first \in Int /\ fpushed \in Int /\ fwslot \in Int /\ fbad \in BOOLEAN
+           /\ first \in Int /\ fpushed \in Int /\ fwslot \in Int /\ fbad \in BOOLEAN /\ fidx \in Int
            /\ IndInv
 =============================================================================
